@@ -283,6 +283,11 @@ def check_case(ctx, case, real, replies):
              cyclic=cfg["cyclic"])
   rec = dict(case, w=[[Fraction(float(v)) for v in row] for row in wf], kind="replay" if case["kind"] == "twice" else case["kind"])
   expect_reject = cfg["mono"] == 0 and (eff_cmin or eff_cmax)
+  if err is not None and err.startswith("build:"):
+    # since fix a22154b/35f6090 the LAYER rejects an effective clamp on a non-monotonic calibrator at
+    # construction (C16's subject); the constraint object still rejects it when applied
+    if expect_reject and err == "build:ERR ValueError":
+      err = "ERR ValueError"
   if err is not None:
     ctx.count("real:" + err)
     ctx.case(sig=(cls, "err", err), nontrivial=False, sample=rec)
